@@ -167,11 +167,27 @@ func symBinop(op token.Token, t types.Type, x, y value) value {
 	}
 	if op == token.SHL || op == token.SHR {
 		a := term(x, k)
+		var b string
 		if isSym(y) {
-			panic(unsupported("shift by symbolic amount"))
+			// amount as a bit-vector of the operand's width, saturated at the width
+			// (Go: shifting by >= width gives 0 / the sign fill, as bvshl/bvlshr/bvashr do)
+			ky := kindOfValue(y)
+			if isSigned(ky) {
+				panic(unsupported("shift by symbolic signed amount"))
+			}
+			ta := term(y, ky)
+			switch wy, wk := width(ky), width(k); {
+			case wy == wk:
+				b = ta
+			case wy < wk:
+				b = fmt.Sprintf("((_ zero_extend %d) %s)", wk-wy, ta)
+			default:
+				b = fmt.Sprintf("(ite (bvuge %s %s) %s ((_ extract %d 0) %s))", ta, bvc(uint64(wk), wy), bvc(uint64(wk), wk), wk-1, ta)
+			}
+		} else {
+			yu, _ := asUnsigned(y)
+			b = bvc(asUint64(yu), width(k))
 		}
-		n := asUint64(y)
-		b := bvc(n, width(k))
 		if op == token.SHL {
 			return symInt{"(bvshl " + a + " " + b + ")", k}
 		}
@@ -195,6 +211,18 @@ func symBinop(op token.Token, t types.Type, x, y value) value {
 		return symInt{"(bvsub " + a + " " + b + ")", k}
 	case token.MUL:
 		return symInt{"(bvmul " + a + " " + b + ")", k}
+	case token.QUO, token.REM:
+		if isSym(y) {
+			panic(unsupported("division by a symbolic value"))
+		}
+		if yu, _ := asUnsigned(y); asUint64(yu) == 0 {
+			panic(unsupported("division by constant zero"))
+		}
+		ops := map[token.Token][2]string{token.QUO: {"bvsdiv", "bvudiv"}, token.REM: {"bvsrem", "bvurem"}}[op]
+		if s {
+			return symInt{"(" + ops[0] + " " + a + " " + b + ")", k}
+		}
+		return symInt{"(" + ops[1] + " " + a + " " + b + ")", k}
 	case token.AND:
 		return symInt{"(bvand " + a + " " + b + ")", k}
 	case token.OR:
